@@ -4,6 +4,7 @@ import (
 	"context"
 	"crypto/tls"
 	"fmt"
+	"runtime/debug"
 	"sort"
 	"strings"
 	"sync"
@@ -229,4 +230,109 @@ func c19Gen(t *rapid.T) c19Case {
 func TestC19(t *testing.T) {
 	c19Describe()
 	core.Prop[c19Case]{ID: "C19", Test: "TestC19", Gen: c19Gen, Run: c19Run}.Check(t)
+}
+
+// TestC19TCP is the secondary oracle: real TCP with the DEFAULT dialers (net.Dialer, and tls.Dialer
+// for implicit TLS), where no tracking connection can be injected. The reference server must see the
+// connection end within 2 s of the call's return; the garbage collector is switched off so that a
+// finalizer cannot close a leaked socket for the library.
+type c19TCPCase struct {
+	Implicit bool            `json:"implicit"`
+	Auth     string          `json:"auth"`
+	Step     string          `json:"step"`
+	Outcome  refsmtp.Outcome `json:"outcome"`
+	Caps     []string        `json:"caps"`
+}
+
+func c19TCPRun(c c19TCPCase) []*core.Violation {
+	rec := core.Rec("C19")
+	old := debug.SetGCPercent(-1)
+	defer debug.SetGCPercent(old)
+	steps := map[string]refsmtp.Outcome{}
+	if c.Step != "" {
+		steps[c.Step] = c.Outcome
+	}
+	srv := refsmtp.NewServer(refsmtp.Script{Caps: c.Caps, Steps: steps, NoGreetProbe: true})
+	srv.Auth = c05Auth
+	srv.TLS = serverTLS(0)
+	ln, err := refsmtp.ListenTCP("127.0.0.1", srv, c.Implicit)
+	if err != nil {
+		return []*core.Violation{core.V("HARNESS-listen", "%v", err)}
+	}
+	defer ln.Close()
+	opts := []mail.Option{mail.WithPort(ln.Port()), mail.WithTimeout(3 * time.Second), mail.WithHELO("client.verif.example")}
+	if c.Implicit {
+		opts = append(opts, mail.WithSSL())
+	} else {
+		opts = append(opts, mail.WithTLSPolicy(mail.TLSMandatory))
+	}
+	if c.Auth != "" {
+		opts = append(opts, mail.WithSMTPAuth(mail.SMTPAuthType(c.Auth)), mail.WithUsername("user"), mail.WithPassword("secretpw"))
+	}
+	cl, err := mail.NewClient("127.0.0.1", opts...)
+	if err != nil {
+		return []*core.Violation{core.V("HARNESS-newclient", "%v", err)}
+	}
+	callErr := cl.DialAndSendWithContext(context.Background(), simpleMsg(1, 1, "quoted-printable"))
+	deadline := time.Now().Add(2 * time.Second)
+	_ = ln.L.Close()
+	ln.Srv.Release()
+	open := 0
+	for _, s := range ln.SessionsSnapshot() {
+		select {
+		case <-s.Done:
+		case <-time.After(time.Until(deadline)):
+			open++
+		}
+	}
+	rec.NonTrivial(core.Join("tcp", c.Implicit, c.Auth, c.Step, c.Outcome.Kind, c.Outcome.Code, strings.Join(c.Caps, ",")))
+	rec.AddExtra("tcp_default_dialer_cases", 1)
+	if open > 0 {
+		return []*core.Violation{core.V("open-after-return-tcp", "DialAndSend over TCP with the default dialers (implicit TLS=%v, auth %q, fault %s=%s%d) returned %v but %d connection(s) were still open at the server 2 s later", c.Implicit, c.Auth, c.Step, c.Outcome.Kind, c.Outcome.Code, callErr, open)}
+	}
+	return nil
+}
+
+func TestC19TCP(t *testing.T) {
+	c19Describe()
+	p := core.Prop[c19TCPCase]{ID: "C19", Test: "TestC19TCP", Run: c19TCPRun}
+	if core.ReplayArg != "" {
+		p.Check(t)
+		return
+	}
+	if core.Shard != 0 {
+		p.Regress(t)
+		return
+	}
+	authCaps := "AUTH PLAIN LOGIN CRAM-MD5"
+	for _, implicit := range []bool{true, false} {
+		for _, auth := range []string{"", "PLAIN", "CRAM-MD5"} {
+			steps := []string{"", "greet", "ehlo#1", "noop#1", "mail#1", "rcpt#1.1", "data#1", "eod#1", "rset#1", "quit"}
+			if auth != "" {
+				steps = append(steps, "auth#1")
+			}
+			if !implicit {
+				steps = append(steps, "starttls", "tlshandshake", "ehlo#2")
+			}
+			caps := []string{"8BITMIME", authCaps}
+			if !implicit {
+				caps = append([]string{"STARTTLS"}, caps...)
+			}
+			var cases []c19TCPCase
+			for _, st := range steps {
+				for _, o := range []refsmtp.Outcome{{Kind: "reply", Code: 554, Text: "5.5.0 no"}, {Kind: "reply", Code: 451, Text: "4.3.0 later"}, {Kind: "garbage"}} {
+					if st == "" && o.Code != 554 {
+						continue
+					}
+					cases = append(cases, c19TCPCase{implicit, auth, st, o, caps})
+				}
+			}
+			cases = append(cases, c19TCPCase{implicit, auth, "", refsmtp.OK, []string{"8BITMIME"}})
+			for _, c := range cases {
+				if v := p.RunOne(c); v != nil {
+					t.Fatalf("VIOLATION-DETAIL property=C19 %s", v)
+				}
+			}
+		}
+	}
 }
